@@ -483,6 +483,17 @@ class DAGRunConcurrentManager(DAGRunManagerLike):
         logger.debug('The node can be executed node_id=%s', node_id)
         return True
 
+    def _get_dependency_error(self, dag: DiGraph, node_id: NodeId) -> t.Optional[BaseException]:
+        """
+        Get an error which has been stored as a result of one of the node's dependencies by a OneOf branch
+        """
+
+        for pred_node_id in self._get_predecessors(dag, node_id):
+            if self._node_storage.exists_node_error(pred_node_id):
+                return self._node_storage.get_node_result(pred_node_id)
+
+        return None
+
     async def _run_dag(self, dag: DiGraph) -> t.Any:
         """
         Run the dag.
@@ -509,8 +520,15 @@ class DAGRunConcurrentManager(DAGRunManagerLike):
                     self._is_ready_to_execute(dag, node_id)  # noqa: B023
                     # Inside a OneOf branch an error is stored as a node result, so the node may never become ready
                     or (dag.is_oneof and self.__has_subgraph_error(dag))
+                    # Outside of a OneOf branch the node can never become ready if its dependency has been executed
+                    # by a OneOf branch and has failed there
+                    or (not dag.is_oneof and self._get_dependency_error(dag, node_id) is not None)  # noqa: B023
                 ),
             )
+
+            if not dag.is_oneof and self._get_dependency_error(dag, node_id) is not None:
+                # The required node has failed. Nobody else reports the error because it has been stored as a result
+                await self.__raise_exc(self._get_dependency_error(dag, node_id))
 
             if dag.is_oneof and self.__has_subgraph_error(dag):
                 logger.debug('An error has been found in the %s', dag)
